@@ -1,6 +1,6 @@
 (* C13 — the theorems of ProvThm.v (proved for the repaired configuration) restated for the configuration the translator read
    from the source. *)
-From QT Require Import C12.Mirror C12.Spec C13.Provisioning C13.Spec C13.ProvThm C13.GenOk Gen.C13Gen.
+From QT Require Import C12.Mirror C12.Spec C13.Provisioning C13.Spec C13.ProvThm C13.EpisodeThm C13.GenOk Gen.C13Gen.
 Open Scope string_scope.
 
 Lemma not_overwritten_attr_src : forall e m id p n,
@@ -39,3 +39,25 @@ Lemma nothing_pending_after_online_src : forall flags dev ports m,
   Forall (fun n => get n (m_dev m) <> VNone) (m_dev_prov m) ->
   nothing_pending (fst (handle_online cfg_src flags dev ports m)).
 Proof. rewrite cfg_src_fixed. exact nothing_pending_after_online. Qed.
+
+Lemma episode_keeps_last_edits_src : forall steps m,
+  nothing_pending m ->
+  (forall e, In (ORemote e) steps -> forall id, keeps id e /\ stable id (SEv e)) ->
+  (forall id n v, In (OSetAttr id n v) steps -> slave_name n <> "enabled" /\ slave_name n <> "value") ->
+  forall it, In it (last_edits steps) ->
+  match it with
+  | IDevAttr n v => v <> VNone -> In it (pending_items (orun cfg_src steps m))
+  | IPortAttr id n v => v <> VNone -> (exists p, find_port id (m_ports m) = Some p) ->
+                        In it (pending_items (orun cfg_src steps m))
+  | IPortValue id v => v <> VNone -> (exists p, find_port id (m_ports m) = Some p /\ mp_enabled p = true) ->
+                       In it (pending_items (orun cfg_src steps m))
+  end.
+Proof. rewrite cfg_src_fixed. exact episode_keeps_last_edits. Qed.
+
+Lemma episode_pushed_once_src : forall flags steps m,
+  NoDup (ids (m_ports m)) ->
+  (forall e, In (ORemote e) steps -> forall id, keeps id e /\ stable id (SEv e)) ->
+  (forall id n v, In (OSetAttr id n v) steps -> slave_name n <> "enabled" /\ slave_name n <> "value") ->
+  let m' := orun cfg_src steps m in
+  pushed_once (pending_items m') (filter issued (snd (apply_provisioning cfg_src flags m'))) = true.
+Proof. rewrite cfg_src_fixed. exact episode_pushed_once. Qed.
